@@ -73,6 +73,8 @@ def standard_run(mod, tier: str, seed: int, args=None) -> int:
     exhaustive = False
     if hasattr(mod, "enumerate_cases"):
         for case in mod.enumerate_cases(tier):
+            if col.saturated():
+                continue
             col.add(case, mod.run_case(case))
         exhaustive = bool(getattr(mod, "ENUMERATION_EXHAUSTIVE", False))
 
